@@ -21,8 +21,12 @@ inside the wrapped call of effect k - before it, after half-writing its file, or
 performed and traced).  Injected without touching /repo (wrappers + audit hook, see `effects`).  Stream `sweep`: EVERY event
 of one save (second save over a complete cache, automatic save of a first read, mesh-only second save) is the point of a
 process death in turn, on objects whose every cache file is observable (all groups non-empty, HEAT settings).
-Oracle: a read returns the parse of the source or exactly one completely saved object; save -> load
-reproduces every group exactly (digests over float.hex / ints / strings by id)."""
+Reads with options (read_mesh_only / read_npy / save) are operations of the histories and of the sweeps: model `readOpt`
+(theorems C05_read_opt_safe, C05_history_inv_opt, C05_crash_safe_opt; the slip "a mesh-only read trusts the mere existence of
+the node and element files" is C05_mesh_only_by_existence_counterexample).
+Oracle: a read returns the parse of the source or exactly one completely saved object (mesh-only read: the node and element
+tables of one of them); save -> load reproduces every group exactly (digests over float.hex / ints / strings by id; settings
+of every value kind by value)."""
 import collections
 import contextlib
 import errno
@@ -47,11 +51,15 @@ THEOREMS = ['C05_full_save_plan', 'C05_crash_inv_plan', 'C05_history_inv_plan', 
             'C05_cache_transparent', 'C05_load_complete_save', 'C05_crash_counterexample_upstream',
             'C05_stale_counterexample_upstream', 'split_join', 'C05_keys_attr_roundtrip', 'C05_keys_roundtrip',
             'C05_keys_elements_roundtrip', 'C05_keys_elemental_collection_roundtrip',
-            'C05_keys_counterexample_substring_type', 'C05_keys_counterexample_ids_in_name']
+            'C05_keys_counterexample_substring_type', 'C05_keys_counterexample_ids_in_name',
+            'C05_read_opt_default', 'C05_read_opt_inv', 'C05_read_opt_safe', 'C05_history_inv_opt', 'C05_crash_safe_opt',
+            'C05_mesh_only_by_existence_counterexample']
 PARTIAL = ['key scheme theorems (C05_keys_*) treat array payloads as opaque tags: numpy.savez / numpy.load exactness is trusted; names / '
            'types containing "/" are excluded by hypothesis (femio itself cannot load them)',
            'torn writes inside one np.savez are modelled as "file present but unreadable" (a crash point), not byte-level',
-           'read options other than the defaults (read_mesh_only, differing time_series) across one history are not modelled',
+           'read options: read_mesh_only / read_npy / save of read_directory are modelled (readOpt) and part of the histories; other '
+           'options (time_series, recursive, stem, read_res) keep their defaults; a mesh-only read is compared by its node and '
+           'element tables only (the face table a polyhedral cache adds is not part of the directory machine)',
            'clean-up effects performed while an exception unwinds the stack are a traced parameter of the *_unwind theorems '
            '(hypothesis GoodUnwind, evaluated on every interrupted run), not derived from the source of save()',
            'files other than the seven cache files of the directory (a staging sub-directory, temporary names) are not part of the '
@@ -86,7 +94,15 @@ RULE = ('seeded histories (quick <= 6 ops, thorough <= 10) over read | save X [m
         'under the key, and half of the variables (rank 1, 2, 3) go through one public in-place update before save() '
         '(FEMAttribute.update / FEMAttributes.update_data with allow_overwrite=True, a write through a .loc / .iloc slice, the '
         'data_frame setter); ids, data SHAPES and values (bit patterns) of what the object reports before save() are compared '
-        'with what is loaded')
+        'with what is loaded; 30% of the variables of that stream have another value kind / memory layout than C-ordered float64 '
+        '(int8 .. uint64 incl. the extreme values, bool, float16 / 32, Fortran order, a non-contiguous view, the square shape width '
+        '== number of rows); EVERY generated object (exactness stream and histories) carries settings of further value kinds: one '
+        'sequence of strings (list / one-element list / tuple / 1-d / 2-d str array) + 2-3 of multi-line / empty / non-ascii / '
+        'bracketed strings, int lists, mixed int + float list, float / uint8 / bool / float16 arrays, negative int, None, empty '
+        'list, and half of them a solution_type HEAT / STATIC / None; a third of the reads of a random history have non-default '
+        'options (read_mesh_only 70%, read_npy=False 20%, save=False 30%), the sweeps put a read_directory(read_mesh_only=True) '
+        'between the process death at EVERY event and the default reads, 6 fixed histories mix the options: a mesh-only read may '
+        'return the node + element tables of ONE object (mesh-only parse of the source, or an object a save of which was started)')
 ASSUMPTIONS = ['an interruption is modelled at the granularity of file-system events below the cache directory (each traced mutation, '
                'whatever call performs it; only those on the seven cache files of the directory are effects of the model, the others '
                'are interruption points at which the model state does not change; a rename is atomic: never torn): a process death by '
@@ -96,8 +112,11 @@ ASSUMPTIONS = ['an interruption is modelled at the granularity of file-system ev
                'and traced; effects already performed are durable, in order (no reordering by the OS); an asynchronous exception '
                'between two effects is represented by the one raised at the next effect (same set of performed effects, same '
                'enclosing try blocks unless a try block contains no file effect at all)',
-               "settings are compared after .item(); a missing / None 'solution_type' is identified with the default 'STATIC' "
-               'that read_npy_directory fills in',
+               "settings are compared by VALUE: a list / tuple and the array numpy.savez stores for it are identified (shape, kind "
+               "- float / int / bool / str / object - and every entry compared), a 0-d array with its .item(); in the group "
+               "digests a missing / None 'solution_type' is identified with the default 'STATIC' that read_npy_directory fills in, so "
+               'that the histories go on; the literal difference is compared separately and reported as '
+               'settings-differ:solution-type-default (findings/C05-solution-type-default.md)',
                'a source whose parse has no element at all (vertex-only OBJ) is outside the quantifier (uniform / mixed elements): '
                'its cache has no femio_elements file and read_npy_directory raises KeyError; such sources are skipped and counted']
 TRUSTED = ['C05: numpy.savez / numpy.load round-trip arrays exactly (third-party)']
@@ -137,14 +156,36 @@ def attr_digest(a):
 
 
 def settings_digest(s):
+    """settings by VALUE: numpy.savez stores every value as numpy.asarray(value), so a list / tuple and the array loaded for
+    it are identified (shape, kind and every entry compared), a 0-d array with its .item()"""
     out = {}
     for k, v in s.items():
+        if isinstance(v, (list, tuple)):
+            v = np.asarray(v)
         if isinstance(v, np.ndarray) and v.shape == ():
             v = v.item()
-        if k == 'solution_type' and (v is None or v == 'None' or v == 'STATIC'):
+        if k == 'solution_type' and (v is None or (isinstance(v, str) and v in ('None', 'STATIC'))):
             continue
         out[k] = repr(canon(v)) if isinstance(v, np.ndarray) else repr(v)
     return out
+
+
+def solution_type_of(s):
+    """settings['solution_type'] as it is, WITHOUT the identification absent = None = 'STATIC' that settings_digest makes (so that
+    the other streams go on): compared separately, signature settings-differ:solution-type-default"""
+    if 'solution_type' not in s:
+        return '<no such key>'
+    v = s['solution_type']
+    if isinstance(v, np.ndarray) and v.shape == ():
+        v = v.item()
+    return repr(v)
+
+
+SOLUTION_TYPE_SIG = 'settings-differ:solution-type-default'
+
+
+def mesh_digest(dg):
+    return {'nodes': dg['nodes'], 'elements': dg['elements']}
 
 
 def digest(fd):
@@ -492,6 +533,7 @@ NAMES_E = ['E', 'stress', 'voids', 'dataset', 'hex_flag', 'prism_ids']
 
 
 EDITS = ['update', 'update_data', 'loc', 'iloc', 'data_frame']
+VAR_KINDS = ['int64', 'int32', 'int8', 'uint8', 'uint16', 'uint64', 'bool', 'float32', 'float16', 'fortran', 'non-contiguous', 'square']
 
 
 def edit_in_place(r, a, how, new, attrs=None, key=None):
@@ -537,6 +579,26 @@ def make_obj(r, tag, has_nodal_extra=True, has_elemental=True, has_constraints=T
         return a.reshape(shape)
 
     def arr(k, rank):
+        if edits is not None and r.random() < .3:
+            # exactness stream: value kinds / memory layouts of a variable other than C-ordered float64, and the square shape
+            # (width == number of rows)
+            kind = r.choice(VAR_KINDS)
+            shape = {1: (k,), 2: (k, k if kind == 'square' else r.choice([1, 3])), 3: (k, 3, 3)}[rank]
+            edits.setdefault('variable kinds', []).append([kind, f'rank {rank}'])
+            if kind == 'square':
+                return vals(shape)
+            if kind == 'fortran':
+                return np.asfortranarray(vals(shape))
+            if kind == 'non-contiguous':
+                return vals(shape[:-1] + (2 * shape[-1],))[..., ::2]
+            if kind == 'bool':
+                return np.array([r.random() < .5 for _ in range(int(np.prod(shape)))]).reshape(shape)
+            if kind.startswith('float'):
+                return np.array([r.choice([r.randint(-9, 9) / 8 + tag, -0.0, 0.333]) for _ in range(int(np.prod(shape)))],
+                                dtype=kind).reshape(shape)
+            info = np.iinfo(kind)
+            return np.array([r.choice([info.min, info.max, r.randint(max(info.min, -99), 99)]) for _ in range(int(np.prod(shape)))],
+                            dtype=kind).reshape(shape)
         return vals({1: (k,), 2: (k, r.choice([1, 3])), 3: (k, 3, 3)}[rank])
 
     def attr_name(fam, key, pool):
@@ -555,7 +617,7 @@ def make_obj(r, tag, has_nodal_extra=True, has_elemental=True, has_constraints=T
 
     def maybe_edit(fam, a, attrs=None, label=None):
         """a share of the variables goes through one public in-place update after it was attached"""
-        if edits is None or a.time_series or r.random() >= .5:
+        if edits is None or a.time_series or a.data.dtype != np.float64 or r.random() >= .5:
             return
         how = r.choice(EDITS)
         new = vals((r.randint(1, len(a.ids)),) + tuple(a.data.shape[1:]))
@@ -598,11 +660,44 @@ def make_obj(r, tag, has_nodal_extra=True, has_elemental=True, has_constraints=T
             for k, a in list(fd.constraints.items()):
                 maybe_edit('constraints', a, fd.constraints)
         fd.settings.update({'tag': tag, 'label': f'run {tag} / a b', 'scale': 1.5 * tag, 'flag': bool(tag % 2)})
-        if r.random() < .5:
-            fd.settings['solution_type'] = r.choice(['HEAT', 'STATIC'])
+        fd.settings.update(setting_kinds(r, tag))
+        if r.random() < .6:
+            fd.settings['solution_type'] = r.choice(['HEAT', 'STATIC', None])      # None: what the UCD / OBJ readers set
         if drop_node_entry and not has_nodal_extra:
             fd.nodal_data.pop('NODE')
     return fd, m
+
+
+SETTING_KINDS = {
+    # string-valued settings that are not one plain string
+    'list of str': lambda r, t: [f'VAR{t}', 'U', 'TEMPERATURE'][: r.randint(2, 3)],
+    'list of one str': lambda r, t: [f'only{t}'],
+    'tuple of str': lambda r, t: (f'res{t}.0', 'res.1'),
+    'str array 1-d': lambda r, t: np.array([f'p{t}', 'PART1', 'PART10']),
+    'str array 2-d': lambda r, t: np.array([[f'a{t}', 'b'], ['c', 'dd']]),
+    'multi-line str': lambda r, t: f'BOUNDARY, {t}\nLOAD, 1\n',
+    'empty str': lambda r, t: '',
+    'str with quotes / brackets': lambda r, t: f"['x{t}' 'y']",
+    'non-ascii str': lambda r, t: f'\u6e29\u5ea6 {t} \u00b0C',
+    # numbers
+    'list of int': lambda r, t: [t, -3, 2 ** 40],
+    'list of int + float': lambda r, t: [t, 0.5],
+    'float array': lambda r, t: np.array([[0.25 * t, -0.0, 1e-300]]),
+    'uint8 array': lambda r, t: np.array([t, 255], dtype=np.uint8),
+    'bool array': lambda r, t: np.array([True, False, bool(t % 2)]),
+    'float16 array': lambda r, t: np.array([t / 4, 0.333], dtype=np.float16),
+    'negative int': lambda r, t: -t,
+    'None': lambda r, t: None,
+    'empty list': lambda r, t: [],
+}
+STR_SEQ = ['list of str', 'list of one str', 'tuple of str', 'str array 1-d', 'str array 2-d']
+
+
+def setting_kinds(r, tag):
+    """settings of further value kinds (every object: one sequence of strings + two or three other kinds)"""
+    kinds = [r.choice(STR_SEQ)] + r.sample([k for k in SETTING_KINDS], r.randint(2, 3))
+    return {'s_' + k.replace(' ', '_').replace('/', '').replace('-', '').replace('+', 'and'): SETTING_KINDS[k](r, tag)
+            for k in dict.fromkeys(kinds)}
 
 
 SKIPPED = collections.Counter()
@@ -755,13 +850,18 @@ def random_op(r, step, prev):
         # at which clean-up code is most likely to be wrong: over-weighted
         u = r.random()
         return (0 if u < .12 else -1 if u < .24 else r.randint(0, 11)), int(r.random() < .35)
+    def a_read():
+        # a third of the reads with non-default options: (read_mesh_only, read_npy, save)
+        if r.random() < .65:
+            return ('read',)
+        return ('oread', int(r.random() < .7), int(r.random() < .8), int(r.random() < .7))
     if prev is not None and prev[0] in ('crash', 'interrupt', 'rcrash', 'rinterrupt', 'nsave') and r.random() < .5:
-        return ('read',)
+        return a_read()
     u = r.random()
     if step == 0 and r.random() < .25:          # only a read without cache saves: most useful as the first operation
         u = .93
     if u < .3:
-        return ('read',)
+        return a_read()
     if u < .5:
         return ('save', r.choice([2, 3]), int(r.random() < .25))
     if u < .68:
@@ -800,6 +900,8 @@ def run_history(ctx, hid, ops_fixed=None, setup=None):
         ft, heat = 'fistr', True
     ctx.count('source:' + ft + (' (HEAT: settings differ from the defaults)' if heat else ''))
     parse = make_source(r, d, 1, ft, heat=heat)
+    with contextlib.redirect_stdout(io.StringIO()):      # what a mesh-only parse of the source gives (nothing is written)
+        parse_mesh = mesh_digest(digest(FEMData.read_directory(ft, d, read_npy=False, save=False, read_mesh_only=True)))
     full = bool(setup.get('full'))
     A, _ = make_obj(r, 2, has_nodal_extra=r.random() < .8 or full, has_elemental=r.random() < .6 or full,
                     has_constraints=r.random() < .6 or full,
@@ -858,7 +960,9 @@ def run_history(ctx, hid, ops_fixed=None, setup=None):
     hist = []
     for step in range(n_ops):
         op = tuple(ops_fixed[step]) if ops_fixed is not None else random_op(r, step, hist[-1] if hist else None)
-        is_read = op[0] in ('read', 'rcrash', 'rinterrupt')
+        is_read = op[0] in ('read', 'rcrash', 'rinterrupt', 'oread')
+        ropt = {'read_mesh_only': bool(op[1]), 'read_npy': bool(op[2]), 'save': bool(op[3])} if op[0] == 'oread' else \
+            {'read_mesh_only': False, 'read_npy': True, 'save': True}
         if op[0] == 'nsave':
             need_poisoned(op[1])
         t, mo = (1, 0) if is_read else (4, 0) if op[0] == 'nsave' else (op[1], op[2])
@@ -876,8 +980,8 @@ def run_history(ctx, hid, ops_fixed=None, setup=None):
         inj = op_injection(op)
         before = observe_dir(d, refs)
         if is_read:
-            def fn():
-                return FEMData.read_directory(ft, d, read_npy=True, save=True)
+            def fn(ropt=ropt):
+                return FEMData.read_directory(ft, d, **ropt)
         else:
             def fn(t=t, mo=mo):
                 objs_fd[t].save(d, save_mesh_only=bool(mo))
@@ -889,12 +993,17 @@ def run_history(ctx, hid, ops_fixed=None, setup=None):
                 'rng_state': rng_state}
         if inj is not None:
             out['fired'] = intr is not None
-        served_from_cache = is_read and before[6] == 's'
+        served_from_cache = is_read and before[6] == 's' and ropt['read_npy']
         ctx.case((hid, step), sample={'op': list(op), 'dir_before': before, 'dir_after': after,
                                       **({'interrupted': {k2: v for k2, v in intr.items() if k2 != 'unwind'},
                                           'effects_while_unwinding': intr['unwind']} if intr else {})},
                  nontrivial=(before != after) or served_from_cache)
         ctx.count('op:' + op[0] + ('/cache' if served_from_cache else ''))
+        if op[0] == 'oread':
+            ctx.count('read options: ' + ', '.join(f'{k2}={v}' for k2, v in ropt.items()))
+            ctx.count('mesh-only read: ' + ('sentinel present' if before[6] == 's' else 'no sentinel, node + element files present'
+                                            if before[0] != 'a' and before[1] != 'a' else 'no sentinel')
+                      if ropt['read_mesh_only'] else 'read with other options')
         if intr is not None:
             ctx.count('interrupted-by:' + intr['by'] + (' (did not leave the call)' if intr['swallowed'] else ''))
             where = 'first-read auto-save' if is_read else 'save over a complete cache' if before[6] == 's' else 'save'
@@ -910,7 +1019,24 @@ def run_history(ctx, hid, ops_fixed=None, setup=None):
             ctx.count('interruption point beyond the last effect' if not served_from_cache else 'read served from cache: nothing to interrupt')
         # ---------------- oracle
         got = None
-        if is_read and returned is not None:
+        if is_read and returned is not None and ropt['read_mesh_only']:
+            # a mesh-only read: the node table and the element tables of ONE object - the (mesh-only) parse of the source or an
+            # object a save of which was at least started in this history
+            dg_ret = digest(returned)
+            md_ret = mesh_digest(dg_ret)
+            cands = [t2 for t2, (od, _f) in objs.items() if mesh_digest(od) == md_ret]
+            if md_ret == parse_mesh and 1 not in cands:
+                cands.append(1)
+            got = ('mesh', sorted(cands))
+            if not any((t2, mo2) in attempted for t2 in cands for mo2 in (False, True)):
+                whose = {g: [t2 for t2, (od, _f) in objs.items() if od[g] == md_ret[g]] for g in ('nodes', 'elements')}
+                ctx.fail('partial-cache-loaded', 'read_directory(read_mesh_only=True) returned a mesh that is neither the parse of the '
+                         f'source nor the mesh of one completely saved object (cache files before the read: {dict(zip(FILES, before))}; '
+                         f'the returned node table is that of object {whose["nodes"] or "?"}, the element tables those of object '
+                         f'{whose["elements"] or "?"}; 1 = the source)', case, {'dir': before, 'read_options': ropt})
+                return out
+            ctx.count('mesh-only read returns: ' + ('source' if 1 in cands else 'saved-object'))
+        elif is_read and returned is not None:
             dg_ret = digest(returned)
             got = match_returned(dg_ret, objs)
             if got is None or got not in attempted:
@@ -924,6 +1050,14 @@ def run_history(ctx, hid, ops_fixed=None, setup=None):
                          {'dir': before, 'settings_returned': dg_ret['settings']})
                 return out
             ctx.count(f'read-returns:{"source" if got[0] == 1 else "saved-object"}{"(mesh-only)" if got[1] else ""}')
+            st_want, st_got = solution_type_of(objs_fd[got[0]].settings), solution_type_of(returned.settings)
+            if not got[1] and st_want != st_got and not out.get('solution_type_reported'):
+                # every group equals object got[0] once absent / None / 'STATIC' are identified; literally the setting differs
+                out['solution_type_reported'] = True
+                ctx.count(f'solution_type of a cached read: {st_want} -> {st_got}')
+                ctx.fail(SOLUTION_TYPE_SIG, f'read_directory({ft!r}) served from the cache returned settings[\'solution_type\'] = '
+                         f'{st_got} where ' + ('parsing the source files gives ' if got[0] == 1 else 'the saved object had ')
+                         + st_want, case, {'parsed_or_saved': st_want, 'cached_read': st_got, 'dir': before})
         elif is_read and err is not None:
             ctx.fail('read-raises', f'read_directory raised {err} after history {hist}', case, {'dir': before})
             return out
@@ -956,7 +1090,9 @@ def run_history(ctx, hid, ops_fixed=None, setup=None):
                              case, {'performed': done, 'then': unw}, {'plan': tr})
                 model_on = False
                 continue
-            if inj is None and intr is None:
+            if op[0] == 'oread' and intr is None:
+                line = f'c05.oread 0 {op[1]} {op[2]} {op[3]} {md} {obj(1)} {enc_plan(tr)}'
+            elif inj is None and intr is None:
                 line = (f'c05.gstep {md} read {obj(1)} {enc_plan(tr)}' if is_read else
                         f'c05.gstep {md} save {obj(t)} {mo} {enc_plan(tr)}')
             elif op[0] == 'crash':
@@ -990,7 +1126,13 @@ def run_history(ctx, hid, ops_fixed=None, setup=None):
                 ctx.disagree('directory after ' + op[0], case, dict(zip(FILES, obs)), dict(zip(FILES, mod)))
                 model_on = False
                 continue
-            if is_read and returned is not None:
+            if is_read and returned is not None and ropt['read_mesh_only']:
+                # the model says whose node / element files were loaded (or the tag of the source: parsed)
+                m_tags = [int(c) if c not in 'at' else c for c in ret[:2]]
+                if m_tags[0] != m_tags[1] or m_tags[0] not in got[1]:
+                    ctx.disagree('mesh returned by a mesh-only read', case, got, {'model': ret})
+                    model_on = False
+            elif is_read and returned is not None:
                 # the model says whose files were loaded; a coherent model result names one (tag, mesh_only)
                 tags = {c for f, c in zip(FILES, ret) if c not in 'at'}
                 m_mesh_only = ret[5] == 'a'
@@ -1032,8 +1174,13 @@ def exactness(ctx, k):
     ctx.case(('exact', k), sample={k2: case[k2] for k2 in ('kind', 'time_series', 'nodal', 'elemental', 'constraints', *edits)},
              nontrivial=True)
     ctx.count('exactness:' + ('time-series' if ts else 'polyhedron' if poly else ('mixed' if '+' in kind else 'uniform')))
+    for k2 in fd.settings:
+        if k2.startswith('s_'):
+            ctx.count('exactness: setting kind: ' + k2[2:].replace('_', ' '))
     for fam, key, name in edits.get('key != FEMAttribute.name', []):
         ctx.count(f'exactness: key != FEMAttribute.name: {fam}' + (' (shared name)' if name == 'shared' else ''))
+    for kind2, rank in edits.get('variable kinds', []):
+        ctx.count(f'exactness: variable kind: {kind2}')
     for fam, key, rank, how in edits.get('updated in place', []):
         ctx.count(f'exactness: updated in place before save: {fam} {rank} by {how}')
     try:
@@ -1051,6 +1198,26 @@ def exactness(ctx, k):
             ctx.fail(f'load-differs:{g}' + (':time-series' if ts else ''), f'save -> load changed the {g} of a {kind} mesh'
                      + first_diff(want[g], got[g]), case, {'want': repr(want[g])[:400], 'got': repr(got[g])[:400]})
             return
+    # the same cache loaded with read_mesh_only=True: the node and element tables (and the face table of polyhedral data)
+    try:
+        with contextlib.redirect_stdout(io.StringIO()):
+            mesh_back = digest(FEMData.read_npy_directory(d, read_mesh_only=True))
+    except Exception as e:
+        ctx.fail('load-raises:mesh-only', f'save -> read_npy_directory(read_mesh_only=True) of a {kind} mesh raised {type(e).__name__}: {e}',
+                 case, None)
+        return
+    for g in ('nodes', 'elements') + (('elemental',) if poly else ()):
+        w2 = {k2: v for k2, v in want[g].items() if k2 == 'face'} if g == 'elemental' else want[g]
+        g2 = {k2: v for k2, v in mesh_back[g].items() if k2 == 'face'} if g == 'elemental' else mesh_back[g]
+        if w2 != g2:
+            ctx.fail(f'load-differs:mesh-only:{g}', f'save -> load with read_mesh_only=True changed the {g} of a {kind} mesh', case,
+                     {'want': repr(w2)[:400], 'got': repr(g2)[:400]})
+            return
+    st_want, st_got = solution_type_of(fd.settings), solution_type_of(back.settings)
+    ctx.count(f'exactness: solution_type saved {st_want}, loaded {st_got}')
+    if st_want != st_got:
+        ctx.fail(SOLUTION_TYPE_SIG, f"save -> load of a {kind} mesh whose settings['solution_type'] is {st_want} returned {st_got}",
+                 case, {'saved': st_want, 'loaded': st_got})
 
 
 def first_diff(want, got):
@@ -1212,11 +1379,12 @@ def exhaustive_second_save(ctx):
         for mo in (0, 1):
             for kind, k, torn, e, after in interruptions(n_points, ['KeyboardInterrupt', 'OSError']):
                 op = ('crash', 3, mo, k, torn) if kind == 'kill' else ('interrupt', 3, mo, k, torn, e, after)
-                run_history(ctx, f'e{first_mo}{mo}{k}{torn}{e}{after}', ops_fixed=[('read',), ('save', 2, first_mo), op, ('read',)])
+                run_history(ctx, f'e{first_mo}{mo}{k}{torn}{e}{after}',
+                            ops_fixed=[('read',), ('save', 2, first_mo), op, ('oread', 1, 1, 1), ('read',)])
                 n += 1
     for kind, k, torn, e, after in interruptions(n_points, ['KeyboardInterrupt', 'SystemExit', 'OSError', 'MemoryError']):
         op = ('rcrash', k, torn) if kind == 'kill' else ('rinterrupt', k, torn, e, after)
-        run_history(ctx, f'r{k}{torn}{e}{after}', ops_fixed=[op, ('read',), ('read',)])
+        run_history(ctx, f'r{k}{torn}{e}{after}', ops_fixed=[op, ('oread', 1, 1, 1), ('read',), ('read',)])
         n += 1
     for how in POISONS:
         for first in ([], [('read',)], [('save', 2, 0)], [('save', 3, 1)]):
@@ -1232,9 +1400,10 @@ def sweep(ctx):
     optional group non-empty and with settings that differ from what a cache without settings file yields (a FrontISTR HEAT
     source), so that EVERY missing file is observable."""
     setup = {'source': 'fistr-heat', 'full': True}
-    for name, mk in (('second-save', lambda k: [('save', 2, 0), ('crash', 3, 0, k, k % 2), ('read',), ('read',)]),
-                     ('first-read', lambda k: [('rcrash', k, k % 2), ('read',), ('read',)]),
-                     ('mesh-only', lambda k: [('save', 2, 0), ('crash', 3, 1, k, k % 2), ('read',)])):
+    mread = ('oread', 1, 1, 1)      # read_directory(read_mesh_only=True): writes nothing, so the default read after it sees the same files
+    for name, mk in (('second-save', lambda k: [('save', 2, 0), ('crash', 3, 0, k, k % 2), mread, ('read',), ('read',)]),
+                     ('first-read', lambda k: [('rcrash', k, k % 2), mread, ('read',), mread, ('read',)]),
+                     ('mesh-only', lambda k: [('save', 2, 0), ('crash', 3, 1, k, k % 2), mread, ('read',)])):
         for k in range(64):
             res = run_history(ctx, f'w{name}{k}', ops_fixed=mk(k), setup=setup)
             shutil.rmtree(ctx.tmp / f'hw{name}{k}', ignore_errors=True)
@@ -1265,6 +1434,13 @@ QUICK_FIXED = [
     # a save that raises by itself over the complete cache of another object
     [('save', 2, 0), ('nsave', 'unpicklable'), ('read',)],
     [('read',), ('nsave', 'reserved-key'), ('read',)],
+    # reads with non-default options (read_mesh_only, read_npy, save) inside a history
+    [('save', 2, 0), ('crash', 3, 0, 6, 0), ('oread', 1, 1, 1), ('read',)],
+    [('read',), ('interrupt', 3, 0, 7, 1, 'OSError', 0), ('oread', 1, 1, 0), ('oread', 0, 1, 0), ('read',)],
+    [('oread', 1, 1, 1), ('read',), ('oread', 1, 1, 0), ('oread', 0, 0, 1)],
+    [('save', 2, 0), ('oread', 0, 0, 1), ('oread', 1, 0, 1), ('read',)],
+    [('read',), ('save', 3, 1), ('oread', 0, 1, 0), ('oread', 1, 1, 1)],
+    [('oread', 0, 1, 0), ('oread', 0, 0, 1), ('save', 2, 1), ('oread', 1, 1, 1)],
 ]
 
 
@@ -1331,6 +1507,13 @@ def run_streams(ctx):
     probe_mesh_only_first_read(ctx)
 
 
+def _same_class(obj, failures):
+    """the failures of a replay that belong to the class the replay file was written for (its 'signature'; every failure when
+    the file names none): a history may ALSO show an open known finding of another signature, which is listed separately"""
+    sig = obj.get('signature')
+    return [f for f in failures if sig is None or f['signature'] == sig]
+
+
 def replay(ctx, obj):
     case = obj['input']
     if 'history' not in case and 'rng_state' in case:
@@ -1340,7 +1523,8 @@ def replay(ctx, obj):
         before = len(ctx.failures)
         exactness(ctx, case['exactness_case'])
         new = [{k: f[k] for k in ('signature', 'what', 'observed')} for f in ctx.failures[before:]]
-        return {'case': {k: v for k, v in case.items() if k not in ('rng_state', 'mesh')}, 'failures': new, 'fails': bool(new)}
+        return {'case': {k: v for k, v in case.items() if k not in ('rng_state', 'mesh')}, 'failures': _same_class(obj, new),
+                'failures_of_other_signatures': [f for f in new if f not in _same_class(obj, new)], 'fails': bool(_same_class(obj, new))}
     if 'history' not in case:
         return {'fails': False, 'note': 'exactness case: re-run ./check C05 with VERIF_SEED=%s' % obj.get('seed')}
     before = len(ctx.failures)
@@ -1348,4 +1532,6 @@ def replay(ctx, obj):
         v, internal, gauss = case['rng_state']
         ctx.rng.setstate((v, tuple(internal), gauss))
     run_history(ctx, 'replay', ops_fixed=[tuple(o) for o in case['history']], setup=case.get('setup'))
-    return {'failures': ctx.failures[before:], 'fails': len(ctx.failures) > before}
+    new = ctx.failures[before:]
+    return {'failures': _same_class(obj, new), 'failures_of_other_signatures': sorted({f['signature'] for f in new} - {obj.get('signature')}),
+            'fails': bool(_same_class(obj, new))}
